@@ -319,12 +319,11 @@ guarantees are restated for the circuits `djGates n q gs`, `bvGates n q gs`, `si
 **compiled** gate list `gs = s.qc.gates` and the qubit `q` the return name is mapped to, for every successful
 run of `compile … (some [r]) true`.
 
-Simon with a several-bit result is **not** linked: `C06_fragment_partial` / `C03_fragment_partial` are about
-a single definition (one return bit); for definition lists with several return bits only the values of the
-return qubits are proved (`C02.C02_fragment_multi`), not that the scratch qubits come back to zero, and
-`FunOracle`'s `F x` is *everything* the circuit leaves on the non-argument qubits – its period is the
-period of the compiled function only for a clean circuit.  What holds for every compilation is
-`C16_simon_any_compilation`: the guarantee with respect to the period of that leftover map. -/
+Simon with a several-bit result is not covered by *this* section (`C06_fragment_partial` /
+`C03_fragment_partial` are about a single definition, one return bit); it is linked in the section on the general
+class below (`C16_end_to_end_simon_general`, from `C03_general_partial` + `C02_general_partial`).  What holds for
+every compilation whatsoever is `C16_simon_any_compilation`: the guarantee with respect to the period of the map
+"everything the circuit leaves on the non-argument qubits". -/
 
 section EndToEnd
 open QV.Compiler (compile inXorFragment dictGet? CState initState)
@@ -554,5 +553,202 @@ example : ∃ (s : CState) (q : Nat),
   | [a, b], _ => cases a <;> cases b <;> decide +kernel
 
 end EndToEnd
+
+/-! ## End to end on the general compiler class (`C06_general_partial`, `C03_general_partial`, `C02_general_partial`)
+
+`inGeneralClean inputs defs rets`: several definitions (named intermediates first, the requested return bits new
+names defined once, last), sub-expressions shared inside and across definitions (cache hits), re-binding, constants.
+For one return bit the two decidable side conditions of `C06_general_partial` on the compiled circuit are hypotheses
+(the return qubit is not an argument qubit and never a control).  For **several return bits** (Simon) no xor-oracle is
+needed: `C03_general_partial` (every non-argument qubit that is not a return qubit is back to zero, arguments
+unchanged) and `C02_general_partial` (each return qubit holds its value) make the compiled gate list a `FunOracle`
+whose `F x` is `EndToEnd.outReg …  x` – the return bits on their qubits, zero elsewhere. -/
+
+section EndToEndGeneral
+open QV.Compiler (compile inGeneralClean inXorFragment dictGet? CState retNeverControl)
+open QV.EndToEnd (predOf outReg)
+
+/-- **C16 end to end on the general class, one return bit** (Deutsch-Jozsa, Bernstein-Vazirani, Simon with a one-bit
+result): the statements of `C16_end_to_end_fragment` for every definition list of `inGeneralClean inputs defs [r]`
+and every successful run of the compiler model whose return qubit `q` is not an argument qubit and never a
+control. -/
+theorem C16_end_to_end_general (inputs : List String) (defs : List (String × BExp)) (r : String)
+    (choices : List Nat) (s : CState) (q : Nat)
+    (hf : inGeneralClean inputs defs [r] = true)
+    (h : (compile inputs defs (some [r]) true).run { choices := choices } = .ok ((), s))
+    (hq : dictGet? s.qc.qmap r = some q) (hge : inputs.length ≤ q)
+    (hnc : retNeverControl s.qc.gates.toList q = true) :
+    q < s.qc.numQubits ∧
+      -- Deutsch-Jozsa
+      (∀ (y rest : List Bool), y.length = inputs.length → rest.length = s.qc.numQubits - inputs.length →
+        (∀ c : Bool, (∀ x : List Bool, x.length = inputs.length → predOf inputs defs r x = c) →
+          (y ≠ zeros inputs.length → run (djGates inputs.length q s.qc.gates.toList) ket0 (y ++ rest) = 0) ∧
+          (∀ b, run (djGates inputs.length q s.qc.gates.toList) ket0
+              (zeros inputs.length ++ embed (s.qc.numQubits - inputs.length) (q - inputs.length) b)
+            = sgn b * sgn c * 2 ^ inputs.length)) ∧
+        (2 * countBits inputs.length (predOf inputs defs r) = 2 ^ inputs.length →
+          run (djGates inputs.length q s.qc.gates.toList) ket0 (zeros inputs.length ++ rest) = 0)) ∧
+      -- Bernstein-Vazirani
+      (∀ (sec : List Bool), sec.length = inputs.length →
+        (∀ x : List Bool, x.length = inputs.length → predOf inputs defs r x = dot x sec) →
+        ∀ (y rest : List Bool), y.length = inputs.length → rest.length = s.qc.numQubits - inputs.length →
+          (y ≠ sec → run (bvGates inputs.length q s.qc.gates.toList) ket0 (y ++ rest) = 0) ∧
+          (∀ b, run (bvGates inputs.length q s.qc.gates.toList) ket0
+              (sec ++ embed (s.qc.numQubits - inputs.length) (q - inputs.length) b)
+            = sgn b * 2 ^ inputs.length)) ∧
+      -- Simon (one result bit)
+      (∀ (sec : List Bool), sec.length = inputs.length → sec ≠ zeros inputs.length →
+        (∀ x x' : List Bool, x.length = inputs.length → x'.length = inputs.length →
+          (predOf inputs defs r x = predOf inputs defs r x' ↔ (x' = x ∨ x' = xorBits x sec))) →
+        ∀ (y : List Bool), y.length = inputs.length →
+          (dot sec y = true → ∀ z : List Bool, z.length = s.qc.numQubits - inputs.length →
+            simonAmp inputs.length s.qc.gates.toList (y ++ z) = 0) ∧
+          (∀ y' : List Bool, y'.length = inputs.length → dot sec y = false → dot sec y' = false →
+            simonWeight inputs.length (s.qc.numQubits - inputs.length) s.qc.gates.toList y
+              = simonWeight inputs.length (s.qc.numQubits - inputs.length) s.qc.gates.toList y' ∧
+            ∀ x0 : List Bool, x0.length = inputs.length →
+              simonAmp inputs.length s.qc.gates.toList
+                (y ++ embed (s.qc.numQubits - inputs.length) (q - inputs.length) (predOf inputs defs r x0)) ^ 2 = 4)) := by
+  obtain ⟨hlt, _, hO, hF⟩ := EndToEnd.compile_oracles_general inputs defs r choices s q hf h hq hge hnc
+  have e : inputs.length + (q - inputs.length) = q := by omega
+  refine ⟨hlt, ?_, ?_, ?_⟩
+  · intro y rest hy hr
+    have := C16_full.1 inputs.length (s.qc.numQubits - inputs.length) (q - inputs.length) s.qc.gates.toList
+      (predOf inputs defs r) (by omega) hO y rest hy hr
+    simp only [djAmp, e] at this
+    exact this
+  · intro sec hs hdot y rest hy hr
+    have := C16_full.2.1 inputs.length (s.qc.numQubits - inputs.length) (q - inputs.length) s.qc.gates.toList
+      (predOf inputs defs r) sec (by omega) hO hs hdot y rest hy hr
+    simp only [bvAmp, e] at this
+    exact this
+  · intro sec hs hz hp y hy
+    exact C16_full.2.2.1 inputs.length (s.qc.numQubits - inputs.length) s.qc.gates.toList _ sec hF
+      (EndToEnd.period_embed (by omega) hs hz hp) y hy
+
+/-- **Simon end to end on the general class, any number of return bits.**  For every definition list of
+`inGeneralClean inputs defs rets` (return names `rets`, e.g. `_ret.0 … _ret.(w-1)`), every successful run of the
+compiler model with uncomputation on in which every return name is mapped to a non-argument qubit (`hall`,
+decidable on the compiler's output; it excludes a return bit that is a bare alias of an argument – return names
+may share a qubit, be constants, or alias an intermediate): if the **denoted function**
+`x ↦ [⟦_ret.0⟧ x, …, ⟦_ret.(w-1)⟧ x]` is two-to-one with period `sec ≠ 0`, then in the circuit `simonGates n gates`
+built from the compiled gate list every outcome `y` with `y·sec = 1` has amplitude 0, all `y` with `y·sec = 0` are
+equally likely, and the squared amplitude on the image (`outReg … x0` = the return bits of `x0` on their qubits, zero
+on every other non-argument qubit) is 4.  No hypothesis about the compiled circuit beyond `hall`. -/
+theorem C16_end_to_end_simon_general (inputs : List String) (defs : List (String × BExp)) (rets : List String)
+    (choices : List Nat) (s : CState)
+    (hf : inGeneralClean inputs defs rets = true)
+    (h : (compile inputs defs (some rets) true).run { choices := choices } = .ok ((), s))
+    (hall : ∀ r ∈ rets, ∃ q, dictGet? s.qc.qmap r = some q ∧ inputs.length ≤ q)
+    (sec : List Bool)
+    (hP : Period inputs.length (fun x => rets.map (fun r => predOf inputs defs r x)) sec) :
+    ∀ (y : List Bool), y.length = inputs.length →
+      (dot sec y = true → ∀ z : List Bool, z.length = s.qc.numQubits - inputs.length →
+        simonAmp inputs.length s.qc.gates.toList (y ++ z) = 0) ∧
+      (∀ y' : List Bool, y'.length = inputs.length → dot sec y = false → dot sec y' = false →
+        simonWeight inputs.length (s.qc.numQubits - inputs.length) s.qc.gates.toList y
+          = simonWeight inputs.length (s.qc.numQubits - inputs.length) s.qc.gates.toList y' ∧
+        ∀ x0 : List Bool, x0.length = inputs.length →
+          simonAmp inputs.length s.qc.gates.toList
+            (y ++ outReg inputs defs rets s.qc.qmap s.qc.numQubits x0) ^ 2 = 4) := by
+  have hF := EndToEnd.compile_funOracle_general inputs defs rets choices s hf h
+  have hCorr := C02.C02_general_partial inputs defs rets true choices s
+    (by
+      simp only [inGeneralClean, Bool.and_eq_true] at hf
+      simp only [Compiler.inGeneralClass, hf.1, Bool.true_or]) h
+  have hall' : ∀ r ∈ rets, ∃ q, dictGet? s.qc.qmap r = some q ∧ inputs.length ≤ q ∧ q < s.qc.numQubits := by
+    intro r hr
+    obtain ⟨q, hq, hge⟩ := hall r hr
+    exact ⟨q, hq, hge,
+      (C02.compile_bookkeeping inputs defs (some rets) true choices s h).2.2.2.1 _ (Compiler.dictGet?_mem hq)⟩
+  intro y hy
+  exact C16_full.2.2.1 inputs.length (s.qc.numQubits - inputs.length) s.qc.gates.toList _ sec hF
+    (EndToEnd.period_outReg hCorr hall' hP) y hy
+
+/-! ### concrete members of the general class, compiled by the model -/
+
+/-- `m = a.0 & a.1; _ret = (a.0 ^ m) ^ (a.1 ^ m)`: two statements, `m` read twice; the predicate is `a.0 ⊕ a.1`
+(balanced, `x ↦ x·11`, period `11`); outside `inXorFragment` -/
+def exGenXor : List (String × BExp) :=
+  [("m", .and [.sym "a.0", .sym "a.1"]),
+   ("_ret", .xor [.xor [.sym "a.0", .sym "m"], .xor [.sym "a.1", .sym "m"]])]
+
+/-- three argument bits, two return bits sharing the intermediate `m = a.0 ^ a.1`:
+`_ret.0 = m ^ a.2; _ret.1 = ¬m` – two-to-one with period `110` -/
+def exInputs3 : List String := ["a.0", "a.1", "a.2"]
+def exSimon2 : List (String × BExp) :=
+  [("m", .xor [.sym "a.0", .sym "a.1"]), ("_ret.0", .xor [.sym "m", .sym "a.2"]), ("_ret.1", .not (.sym "m"))]
+
+theorem exGen_class : inGeneralClean exInputs exGenXor ["_ret"] = true ∧ inXorFragment exInputs exGenXor ["_ret"] = false ∧
+    inGeneralClean exInputs3 exSimon2 ["_ret.0", "_ret.1"] = true := by
+  decide +kernel
+
+/-- the model compiles `exGenXor` (choices 2, 3: `m` on qubit 2, `_ret` on qubit 3, never a control) -/
+theorem exGenXor_compiles :
+    ∃ s, (compile exInputs exGenXor (some ["_ret"]) true).run { choices := [2, 3] } = .ok ((), s) ∧
+      dictGet? s.qc.qmap "_ret" = some 3 ∧ retNeverControl s.qc.gates.toList 3 = true := by
+  apply EndToEnd.runCheck_ok
+  simp only [compile, exInputs, exGenXor, Compiler.compileDefs, Compiler.compileExpr, Compiler.compileArgs,
+    Compiler.compileXorArgs, EndToEnd.sortNat_eq]
+  decide +kernel
+
+/-- the model compiles `exSimon2` (choices 3, 4, 5: 6 qubits, `_ret.0` on qubit 4, `_ret.1` on qubit 5) -/
+theorem exSimon2_compiles :
+    ∃ s, (compile exInputs3 exSimon2 (some ["_ret.0", "_ret.1"]) true).run { choices := [3, 4, 5] } = .ok ((), s) ∧
+      ∀ r ∈ ["_ret.0", "_ret.1"], ∃ q, dictGet? s.qc.qmap r = some q ∧ 3 ≤ q := by
+  apply EndToEnd.retsCheck_ok
+  simp only [compile, exInputs3, exSimon2, Compiler.compileDefs, Compiler.compileExpr, Compiler.compileArgs,
+    Compiler.compileXorArgs, EndToEnd.sortNat_eq]
+  decide +kernel
+
+/-- the function `exSimon2` denotes is two-to-one with period `110` -/
+theorem exSimon2_period :
+    Period 3 (fun x => ["_ret.0", "_ret.1"].map (fun r => predOf exInputs3 exSimon2 r x)) [true, true, false] := by
+  refine ⟨rfl, by decide, ?_⟩
+  intro x x' hx hx'
+  match x, hx, x', hx' with
+  | [a, b, c], _, [d, e, f], _ =>
+    cases a <;> cases b <;> cases c <;> cases d <;> cases e <;> cases f <;> decide +kernel
+
+/-- non-vacuity of `C16_end_to_end_general`: the two-statement predicate with the shared intermediate -/
+example : ∃ (s : CState),
+    (compile exInputs exGenXor (some ["_ret"]) true).run { choices := [2, 3] } = .ok ((), s) ∧
+    (∀ rest : List Bool, rest.length = s.qc.numQubits - 2 →
+      run (djGates 2 3 s.qc.gates.toList) ket0 (zeros 2 ++ rest) = 0) ∧
+    (∀ y rest : List Bool, y.length = 2 → rest.length = s.qc.numQubits - 2 → y ≠ [true, true] →
+      run (bvGates 2 3 s.qc.gates.toList) ket0 (y ++ rest) = 0) ∧
+    (∀ y z : List Bool, y.length = 2 → z.length = s.qc.numQubits - 2 → dot [true, true] y = true →
+      simonAmp 2 s.qc.gates.toList (y ++ z) = 0) := by
+  obtain ⟨s, hs, hq, hnc⟩ := exGenXor_compiles
+  obtain ⟨_, hdj, hbv, hsi⟩ :=
+    C16_end_to_end_general exInputs exGenXor "_ret" [2, 3] s 3 exGen_class.1 hs hq (by decide) hnc
+  have hdot : ∀ x : List Bool, x.length = exInputs.length → predOf exInputs exGenXor "_ret" x = dot x [true, true] := by
+    intro x hx
+    match x, hx with
+    | [a, b], _ => cases a <;> cases b <;> decide +kernel
+  have hper : ∀ x x' : List Bool, x.length = exInputs.length → x'.length = exInputs.length →
+      (predOf exInputs exGenXor "_ret" x = predOf exInputs exGenXor "_ret" x' ↔ (x' = x ∨ x' = xorBits x [true, true])) := by
+    intro x x' hx hx'
+    match x, hx, x', hx' with
+    | [a, b], _, [c, d], _ => cases a <;> cases b <;> cases c <;> cases d <;> decide +kernel
+  refine ⟨s, hs, ?_, ?_, ?_⟩
+  · intro rest hr
+    exact (hdj [false, false] rest rfl hr).2 (by decide +kernel)
+  · intro y rest hy hr hne
+    exact (hbv [true, true] rfl hdot y rest hy hr).1 hne
+  · intro y z hy hz hd
+    exact (hsi [true, true] rfl (by decide) hper y hy).1 hd z hz
+
+/-- non-vacuity of `C16_end_to_end_simon_general`: two return bits, three statements, shared intermediate -/
+example : ∃ (s : CState),
+    (compile exInputs3 exSimon2 (some ["_ret.0", "_ret.1"]) true).run { choices := [3, 4, 5] } = .ok ((), s) ∧
+    ∀ y z : List Bool, y.length = 3 → z.length = s.qc.numQubits - 3 → dot [true, true, false] y = true →
+      simonAmp 3 s.qc.gates.toList (y ++ z) = 0 := by
+  obtain ⟨s, hs, hall⟩ := exSimon2_compiles
+  refine ⟨s, hs, fun y z hy hz hd => ?_⟩
+  exact ((C16_end_to_end_simon_general exInputs3 exSimon2 ["_ret.0", "_ret.1"] [3, 4, 5] s exGen_class.2.2 hs hall
+    [true, true, false] exSimon2_period) y hy).1 hd z hz
+
+end EndToEndGeneral
 
 end QV.C16
